@@ -54,11 +54,17 @@ def user_defs(rng, names, cations, anions):
                    "Ba": "Ba+2", "Mn": "Mn+2"}[c]
             kind = rng.random()
             if kind < 0.55:
-                sp.append(f" {m} + {ion} = {nm}O{c}+ + H+\n  log_k {rng.uniform(-6, 2.5):.2f}")
+                if rng.random() < 0.3:   # written from the protonated site (rewritten to the master by the engine)
+                    sp.append(f" {m}2+ + {ion} = {nm}O{c}+ + 2H+\n  log_k {rng.uniform(-6, 2.5) - k1:.2f}")
+                else:
+                    sp.append(f" {m} + {ion} = {nm}O{c}+ + H+\n  log_k {rng.uniform(-6, 2.5):.2f}")
                 species.append(f"{nm}O{c}+")
             elif kind < 0.8:
                 sp.append(f" {m} + {ion} = {nm}OH{c}+2\n  log_k {rng.uniform(1, 6):.2f}")
                 species.append(f"{nm}OH{c}+2")
+            elif rng.random() < 0.3:   # bidentate written from the deprotonated site
+                sp.append(f" 2{nm}O- + {ion} = ({nm}O)2{c}\n  log_k {rng.uniform(-9, -2) - 2 * k2:.2f}")
+                species.append(f"({nm}O)2{c}")
             else:   # bidentate: coefficient 2 on the surface master (equiv = 2)
                 sp.append(f" 2{m} + {ion} = ({nm}O)2{c} + 2H+\n  log_k {rng.uniform(-9, -2):.2f}")
                 species.append(f"({nm}O)2{c}")
@@ -86,39 +92,80 @@ def user_defs(rng, names, cations, anions):
 
 
 def cd_defs(rng, cations, anions):
-    """a goethite-like CD-MUSIC surface: two site types on one surface `Goe`"""
+    """a goethite-like CD-MUSIC surface `Goe` with two site types, a protonation/deprotonation chain, and complexes with
+    1, 2 or 3 sites written either "direct" (from the master species) or "chain" (from a non-master parent that has a
+    non-zero -cd_music itself).  For a chain species the numbers after -cd_music are those of the reaction AS WRITTEN:
+    effective distribution (relative to the master) minus coefficient × distribution of the parent."""
     ms = [" Goe_uni Goe_uniOH-0.5", " Goe_tri Goe_triO-0.5"]
     sp = [" Goe_uniOH-0.5 = Goe_uniOH-0.5\n  -cd_music 0 0 0 0 0\n  log_k 0",
           " Goe_triO-0.5 = Goe_triO-0.5\n  -cd_music 0 0 0 0 0\n  log_k 0"]
     species = ["Goe_uniOH-0.5", "Goe_triO-0.5"]
     kh = rng.uniform(8.0, 10.0)
+    kd = rng.uniform(-13.5, -11.0)
     sp.append(f" Goe_uniOH-0.5 + H+ = Goe_uniOH2+0.5\n  -cd_music 1 0 0 0 0\n  log_k {kh:.2f}")
     species.append("Goe_uniOH2+0.5")
+    sp.append(f" Goe_uniOH-0.5 = Goe_uniO-1.5 + H+\n  -cd_music -1 0 0 0 0\n  log_k {kd:.2f}")
+    species.append("Goe_uniO-1.5")
     sp.append(f" Goe_triO-0.5 + H+ = Goe_triOH+0.5\n  -cd_music 1 0 0 0 0\n  log_k {kh:.2f}")
     species.append("Goe_triOH+0.5")
     sp.append(f" Goe_uniOH-0.5 + Na+ = Goe_uniOHNa+0.5\n  -cd_music 0 1 0 0 0\n  log_k {rng.uniform(-1.5, 0):.2f}")
     species.append("Goe_uniOHNa+0.5")
-    sp.append(f" Goe_uniOH-0.5 + H+ + Cl- = Goe_uniOH2Cl-0.5\n  -cd_music 1 -1 0 0 0\n  log_k {kh - rng.uniform(0.2, 1):.2f}")
+    if rng.random() < 0.5:    # outer-sphere chloride, direct or from the protonated site (monodentate chain)
+        sp.append(f" Goe_uniOH-0.5 + H+ + Cl- = Goe_uniOH2Cl-0.5\n  -cd_music 1 -1 0 0 0\n  log_k {kh - rng.uniform(0.2, 1):.2f}")
+    else:
+        sp.append(f" Goe_uniOH2+0.5 + Cl- = Goe_uniOH2Cl-0.5\n  -cd_music 0 -1 0 0 0\n  log_k {-rng.uniform(0.2, 1):.2f}")
     species.append("Goe_uniOH2Cl-0.5")
+    ionof = {"Zn": "Zn+2", "Cd": "Cd+2", "Cu": "Cu+2", "Pb": "Pb+2", "Ca": "Ca+2", "Mg": "Mg+2", "Sr": "Sr+2", "Ba": "Ba+2", "Mn": "Mn+2"}
+
+    def f3(x):
+        return ("%.4f" % x).rstrip("0").rstrip(".") if "." in ("%.4f" % x) else "%.4f" % x
+
     for c in cations:
-        ion = {"Zn": "Zn+2", "Cd": "Cd+2", "Cu": "Cu+2", "Pb": "Pb+2", "Ca": "Ca+2", "Mg": "Mg+2", "Sr": "Sr+2",
-               "Ba": "Ba+2", "Mn": "Mn+2"}[c]
+        ion = ionof[c]
         d0 = rng.choice([0.2, 0.32, 0.5, 0.9])
-        if rng.random() < 0.6:
-            sp.append(f" Goe_uniOH-0.5 + {ion} = Goe_uniOH{c}+1.5\n  -cd_music {d0} {2 - d0:.2f} 0 0 0\n  log_k {rng.uniform(2, 7):.2f}")
-            species.append(f"Goe_uniOH{c}+1.5")
-        else:   # bidentate with fractional charge distribution and the 4th/5th cd_music parameters
-            sp.append(f" 2Goe_uniOH-0.5 + {ion} = (Goe_uniOH)2{c}+\n  -cd_music {d0} {2 - d0:.2f} 0 0 0\n  log_k {rng.uniform(3, 9):.2f}")
-            species.append(f"(Goe_uniOH)2{c}+")
+        n = rng.choice([1, 1, 2, 2, 3])
+        chain = rng.random() < 0.5
+        pre = "" if n == 1 else str(n)
+        prod = {1: f"Goe_uniOH{c}+1.5", 2: f"(Goe_uniOH)2{c}+", 3: f"(Goe_uniOH)3{c}+0.5"}[n]
+        lk = rng.uniform(2, 7) + 2.5 * (n - 1)
+        if not chain:
+            sp.append(f" {pre}Goe_uniOH-0.5 + {ion} = {prod}\n  -cd_music {f3(d0)} {f3(2 - d0)} 0 0 0\n  log_k {lk:.2f}")
+        elif rng.random() < 0.6:
+            # from the protonated site (distribution 1 0 0): n SOH2 + M = complex + n H+
+            hp = "H+" if n == 1 else f"{n}H+"
+            sp.append(f" {pre}Goe_uniOH2+0.5 + {ion} = {prod} + {hp}\n  -cd_music {f3(d0 - n)} {f3(2 - d0)} 0 0 0\n  log_k {lk - n * kh:.2f}")
+        else:
+            # from the deprotonated site (distribution -1 0 0): n SO + n H+ + M = complex
+            hp = "H+" if n == 1 else f"{n}H+"
+            sp.append(f" {pre}Goe_uniO-1.5 + {hp} + {ion} = {prod}\n  -cd_music {f3(d0 + n)} {f3(2 - d0)} 0 0 0\n  log_k {lk - n * kd:.2f}")
+        species.append(prod)
     for a in anions:
+        chain = rng.random() < 0.5
         if a == "S(6)":
-            sp.append(f" Goe_uniOH-0.5 + H+ + SO4-2 = Goe_uniOSO3-1.5 + H2O\n  -cd_music 1 0 0 {rng.choice([0.18, 0.25, 0.4])} -2\n  log_k {rng.uniform(8, 10):.2f}")
+            f = rng.choice([0.18, 0.25, 0.4])
+            lk = rng.uniform(8, 10)
+            if not chain:
+                sp.append(f" Goe_uniOH-0.5 + H+ + SO4-2 = Goe_uniOSO3-1.5 + H2O\n  -cd_music 1 0 0 {f} -2\n  log_k {lk:.2f}")
+            else:
+                sp.append(f" Goe_uniOH2+0.5 + SO4-2 = Goe_uniOSO3-1.5 + H2O\n  -cd_music {f3(-2 * f)} {f3(-2 * (1 - f))} 0 0 0\n  log_k {lk - kh:.2f}")
             species.append("Goe_uniOSO3-1.5")
         elif a == "P":
-            sp.append(f" 2Goe_uniOH-0.5 + 2H+ + PO4-3 = (Goe_uniO)2PO2-2 + 2H2O\n  -cd_music 2 0 0 {rng.choice([0.3, 0.46, 0.6])} -3\n  log_k {rng.uniform(27, 31):.2f}")
+            f = rng.choice([0.3, 0.46, 0.6])
+            lk = rng.uniform(27, 31)
+            if not chain:
+                sp.append(f" 2Goe_uniOH-0.5 + 2H+ + PO4-3 = (Goe_uniO)2PO2-2 + 2H2O\n  -cd_music 2 0 0 {f} -3\n  log_k {lk:.2f}")
+            else:
+                sp.append(f" 2Goe_uniOH2+0.5 + PO4-3 = (Goe_uniO)2PO2-2 + 2H2O\n  -cd_music {f3(-3 * f)} {f3(-3 * (1 - f))} 0 0 0\n  log_k {lk - 2 * kh:.2f}")
             species.append("(Goe_uniO)2PO2-2")
+            if rng.random() < 0.5:   # protonated bidentate written from the bidentate (a chain of depth 2 when that one is a chain)
+                sp.append(f" (Goe_uniO)2PO2-2 + H+ = (Goe_uniO)2POOH-\n  -cd_music 0 1 0 0 0\n  log_k {rng.uniform(3, 6):.2f}")
+                species.append("(Goe_uniO)2POOH-")
         elif a == "F":
-            sp.append(f" Goe_uniOH-0.5 + H+ + F- = Goe_uniF-0.5 + H2O\n  -cd_music 0.4 -0.4 0 0 0\n  log_k {rng.uniform(8, 10):.2f}")
+            lk = rng.uniform(8, 10)
+            if not chain:
+                sp.append(f" Goe_uniOH-0.5 + H+ + F- = Goe_uniF-0.5 + H2O\n  -cd_music 0.4 -0.4 0 0 0\n  log_k {lk:.2f}")
+            else:
+                sp.append(f" Goe_uniOH2+0.5 + F- = Goe_uniF-0.5 + H2O\n  -cd_music -0.6 -0.4 0 0 0\n  log_k {lk - kh:.2f}")
             species.append("Goe_uniF-0.5")
     text = "SURFACE_MASTER_SPECIES\n" + "\n".join(ms) + "\nSURFACE_SPECIES\n" + "\n".join(sp) + "\n"
     return text, species
